@@ -154,7 +154,7 @@ func (g *popgen) message(md protoreflect.MessageDescriptor, path string, depth, 
 			// string-like lists now and then carry an extension on one entry and a value-less entry
 			// (JSON null in the value array, the element living in the parallel "_name" array)
 			if md := f.Message(); len(vals) >= 2 && !hasExt && (g.count+g.o.Inst)%5 == 0 {
-				if ty, kind := FHIRTypeOf(md); kind == "prim" && (ty == "string" || ty == "uri" || ty == "markdown" || ty == "id") {
+				if ty, kind := FHIRTypeOf(md); kind == "prim" && (ty == "string" || ty == "uri" || ty == "markdown") {
 					exts = make([]any, len(vals))
 					exts[0] = map[string]any{"extension": []any{map[string]any{"url": "http://example.org/prim-ext", "valueString": "px0"}}}
 					vals[len(vals)-1] = nil
